@@ -117,5 +117,11 @@ func init() {
 	harnessAPI["vfConc"] = func(m *Machine, args []Value) Value {
 		return m.i64(m.ConcInt(args[0]))
 	}
+	harnessAPI["vfBound"] = func(m *Machine, args []Value) Value {
+		if m.Cfg.Thorough {
+			return args[1]
+		}
+		return args[0]
+	}
 	harnessAPI["vfSymbolic"] = func(m *Machine, args []Value) Value { return m.C.True }
 }
